@@ -551,6 +551,53 @@ pub fn validate_csv_from_str(
   csv_validator::validate_csv_from_str(cddl, csv_data, has_header)
 }
 
+/// A number of the data model, for comparisons by numeric value
+#[derive(Clone, Copy, Debug)]
+pub enum Numeric {
+  /// an integer (CBOR major types 0 and 1, JSON numbers without fraction)
+  Int(i128),
+  /// a floating-point number
+  Float(f64),
+}
+
+impl Numeric {
+  /// The numeric value of a CDDL literal, if it is a number
+  pub fn from_literal(value: &crate::token::Value) -> Option<Self> {
+    match value {
+      crate::token::Value::INT(v) => Some(Numeric::Int(*v as i128)),
+      crate::token::Value::UINT(v) => Some(Numeric::Int(*v as i128)),
+      crate::token::Value::FLOAT(v) => Some(Numeric::Float(*v)),
+      _ => None,
+    }
+  }
+
+  /// Ordering by numeric value; integers are compared exactly with each other
+  pub fn compare(self, other: Numeric) -> Option<core::cmp::Ordering> {
+    match (self, other) {
+      (Numeric::Int(a), Numeric::Int(b)) => Some(a.cmp(&b)),
+      (Numeric::Int(a), Numeric::Float(b)) => (a as f64).partial_cmp(&b),
+      (Numeric::Float(a), Numeric::Int(b)) => a.partial_cmp(&(b as f64)),
+      (Numeric::Float(a), Numeric::Float(b)) => a.partial_cmp(&b),
+    }
+  }
+
+  /// Does `self <ctrl> other` hold, for the comparison controls .lt .le .gt .ge .ne
+  pub fn satisfies(self, ctrl: crate::token::ControlOperator, other: Numeric) -> Option<bool> {
+    use core::cmp::Ordering::*;
+    use crate::token::ControlOperator as C;
+
+    let ord = self.compare(other);
+    match ctrl {
+      C::LT => Some(ord == Some(Less)),
+      C::LE => Some(matches!(ord, Some(Less | Equal))),
+      C::GT => Some(ord == Some(Greater)),
+      C::GE => Some(matches!(ord, Some(Greater | Equal))),
+      C::NE => Some(ord != Some(Equal)),
+      _ => None,
+    }
+  }
+}
+
 /// Find non-choice alternate rule from a given identifier
 pub fn rule_from_ident<'a>(cddl: &'a CDDL, ident: &Identifier) -> Option<&'a Rule<'a>> {
   cddl.rules.iter().find(|r| match r {
